@@ -101,6 +101,8 @@ def run(ctx):
             continue
         if "json" not in r:
             continue
+        if r.get("single_json_diff"):
+            ctx.violation("a match rendered on its own is not the document it is inside the list", {"source": p, "difference": r["single_json_diff"]})
         mo = model.parse_sexp(mres["j%d" % i]) if ("j%d" % i) in mres and mres["j%d" % i].startswith("(ok") else None
         for k, (cj, fj, msx) in enumerate(r["json"]):
             t = texts[k]
